@@ -18,6 +18,13 @@ Theorem C11_reported_id_depends_on_map_order_refuted :
 Proof. exact reported_id_depends_on_map_order. Qed.
 Print Assumptions C11_reported_id_depends_on_map_order_refuted.
 
+(* after the repair (F8: the account ids are visited in sorted order) the reported id is a function of the
+   map's contents, whatever order Go ranges over it *)
+Theorem C11_reported_id_after_fix_independent_of_map_order :
+  forall l l', NoDup (map fst l) -> Permutation l l' -> first_bad (sort_entries l) = first_bad (sort_entries l').
+Proof. exact reported_id_after_fix_independent_of_map_order. Qed.
+Print Assumptions C11_reported_id_after_fix_independent_of_map_order.
+
 (* block transitions of the three models are functions: equal inputs, equal results (stated so that a
    future relational or oracle-dependent reformulation of a model has to re-establish it) *)
 Theorem C11_model_transitions_are_functions :
